@@ -182,7 +182,18 @@ def protocol(ctx, R):
             a = sent_agg(pb, eb, jobs[0], 'VotingCommands::Distances')
             m = dict(zip(a.extra['fields'], a.args))
             n += 1
-            okp = m['monitor'].has_field('monitor') and m['channel'].has_call('get_sender') and \
+            # "this batch's monitor": self.monitor as set by this call, or the very Arc that this call stores there
+            stored = []
+            for i_ in sorted(pb.live_blocks()):
+                for si_, s_ in enumerate(pb.blocks[i_]['st']):
+                    if s_['k'] == 'assign' and s_['lhs']['l'] == 1 and any(
+                            isinstance(p_, dict) and p_.get('n') == 'monitor' for p_ in s_['lhs']['p']):
+                        re_ = eb._rvalue(s_['rv'], (), 0, (i_, si_))
+                        stored += [x.extra for x in re_.walk() if x.kind == 'call' and x.name.endswith('Arc::new')]
+            mon_ok = m['monitor'].has_field('monitor') or any(
+                x.kind == 'call' and x.name.endswith('Arc::new') and any(x.extra is y for y in stored)
+                for x in m['monitor'].walk())
+            okp = mon_ok and m['channel'].has_call('get_sender') and \
                 m['distances'].has_call('foreign_track_distances') and m['tracks'].has_call('collect')
             ctx.check(okp, R, pb, tname + ':job-payload', '', 'the voting job does not carry (this batch\'s monitor, '
                       'the request\'s result sender, the distances of this scene, the candidates of this scene)')
@@ -260,14 +271,22 @@ def protocol(ctx, R):
         db = ctx.anchor(R, '<%s as std::ops::Drop>::drop' % t['ty'])
         if db is not None:
             ebd = ExprBuilder(db)
-            ex = [c for c in db.find_calls(SEND) if sent_agg(db, ebd, c, 'VotingCommands::Exit') is not None]
-            jn = db.find_calls('std::thread::JoinHandle::join')
+            from lib import effective_sites, iteration_context
+            ex = [(s_, c, o) for s_, c, o in effective_sites(F, db, SEND)
+                  if sent_agg(o, ExprBuilder(o), c, 'VotingCommands::Exit') is not None]
+            jn = effective_sites(F, db, 'std::thread::JoinHandle::join')
             n += 1
-            okx = len(ex) == 1 and len(jn) == 1 and db.dominates(ex[0].bb, jn[0].bb)
+            okx = len(ex) == 1 and len(jn) == 1 and ex[0][2] is jn[0][2] and \
+                ex[0][2].dominates(ex[0][1].bb, jn[0][1].bb)
             if okx:
-                hs_e = [h for h, blks in db.loops().items() if ex[0].bb in blks]
-                hs_j = [h for h, blks in db.loops().items() if jn[0].bb in blks]
-                okx = bool(hs_e) and hs_e == hs_j
+                # both happen once per voting thread: inside the same loop, or in the closure run per thread
+                o = ex[0][2]
+                if o is db:
+                    hs_e = [h for h, blks in db.loops().items() if ex[0][1].bb in blks]
+                    hs_j = [h for h, blks in db.loops().items() if jn[0][1].bb in blks]
+                    okx = bool(hs_e) and hs_e == hs_j
+                else:
+                    okx = bool(iteration_context(F, db, o, ex[0][1].bb))
             ctx.check(okx, R, db, tname + ':drop-sends-exit-then-joins-each-thread', '',
                       'Drop does not send Exit to every voting thread before joining it: shutdown can block forever')
     # batch_size bookkeeping
